@@ -292,7 +292,9 @@ var heapAborts atomic.Int64
 // wallAborts counts runs ended by the watchdog after abortAfter of wall time.
 var wallAborts atomic.Int64
 
-const abortAfter = 3 * time.Second
+// abortAfter: a test whose cases legitimately take longer (big files) raises it
+// before it starts the watchdog.
+var abortAfter = 3 * time.Second
 
 // StartWatchdog arms the trace file and the watchdog goroutine: a case in flight
 // for more than limit of wall time, or a heap above 3 GiB, ends the process with
